@@ -27,6 +27,7 @@ import (
 	"fmt"
 	"time"
 
+	bitfield "github.com/OffchainLabs/go-bitfield"
 	eth2api "github.com/attestantio/go-eth2-client/api"
 	eth2v1 "github.com/attestantio/go-eth2-client/api/v1"
 	eth2capella "github.com/attestantio/go-eth2-client/api/v1/capella"
@@ -50,17 +51,23 @@ import (
 )
 
 const (
-	c01kProposer = "proposer"
+	c01kProposer   = "proposer"
+	c01kAggregator = "aggregator"
 	c01kSync     = "sync"
 	c01kExit     = "exit"
 	c01kReg      = "registration"
 	c01kRandao   = "randao"
 )
 
+// viaConsensus: the duty's unsigned data is fetched, agreed on by consensus and served to the validator client by dutydb.
+func (w *c01world) viaConsensus() bool { return w.kind == c01kProposer || w.kind == c01kAggregator }
+
 func (w *c01world) bDuty() core.Duty {
 	switch w.kind {
 	case c01kProposer:
 		return core.NewProposerDuty(c01slot)
+	case c01kAggregator:
+		return core.NewAggregatorDuty(c01slot)
 	case c01kSync:
 		return core.NewSyncMessageDuty(c01slot)
 	case c01kExit:
@@ -88,6 +95,10 @@ func (w *c01world) bDefSet() core.DutyDefinitionSet {
 	if w.kind == c01kProposer {
 		v := w.cl.vals[0]
 		out[v.corePK] = core.NewProposerDefinition(&eth2v1.ProposerDuty{PubKey: eth2p0.BLSPubKey(v.group), Slot: c01slot, ValidatorIndex: v.valIdx})
+	}
+	if w.kind == c01kAggregator {
+		v := w.cl.vals[0]
+		out[v.corePK] = core.NewAttesterDefinition(w.attDuty(v))
 	}
 	return out
 }
@@ -168,6 +179,18 @@ func c01bProposal(ver string, variant byte, proposer eth2p0.ValidatorIndex) (*et
 func (n *c01node) bFetch(defs core.DutyDefinitionSet) (core.UnsignedDataSet, error) {
 	set := core.UnsignedDataSet{}
 	for pk := range defs {
+		if n.world.kind == c01kAggregator {
+			agg, err := core.NewVersionedAggregatedAttestation(n.aggCand)
+			if err != nil {
+				return nil, err
+			}
+			cl, err := agg.Clone()
+			if err != nil {
+				return nil, err
+			}
+			set[pk] = cl
+			continue
+		}
 		cl, err := core.VersionedProposal{VersionedProposal: *n.propCand}.Clone()
 		if err != nil {
 			return nil, err
@@ -312,7 +335,23 @@ func (w *c01world) bSignObject(v c01val, vi int, share int, variant int, mod int
 func (n *c01node) bVC(duty core.Duty) {
 	w := n.world
 	set := core.ParSignedDataSet{}
-	if w.kind == c01kProposer {
+	if w.kind == c01kAggregator {
+		v := w.cl.vals[0]
+		data := w.bAggData()
+		root, err := data.HashTreeRoot()
+		if err != nil {
+			return
+		}
+		att, err := n.awaitAgg(n.ctx, c01slot, root, v.commIdx)
+		if err != nil {
+			return
+		}
+		par, err := w.bSignAggregate(v, n.idx+1, att, nil)
+		if err != nil {
+			return
+		}
+		set[v.corePK] = par
+	} else if w.kind == c01kProposer {
 		prop, err := n.awaitProp(n.ctx, c01slot)
 		if err != nil {
 			return
@@ -425,6 +464,10 @@ type c01bact struct {
 }
 
 func (w *c01world) bByzMenu() []c01bact {
+	if w.kind == c01kAggregator {
+		// every field of an aggregate-and-proof is part of the signed message: no "other unsigned fields" strategy
+		return []c01bact{{"b-own", 0}, {"b-own", 1}, {"b-other", 0}, {"b-badsig", 0}, {"b-relabel", 0}, {"b-relabel", 1}}
+	}
 	m := []c01bact{{"b-own", 0}, {"b-own", 1}, {"b-other", 0}, {"b-badsig", 0}, {"b-relabel", 0}, {"b-relabel", 1}}
 	if w.sc.Ver == "deneb" || w.sc.Ver == "fulu" {
 		m = append(m, c01bact{"b-unsigned", 0}, c01bact{"b-unsigned", 1})
@@ -433,6 +476,9 @@ func (w *c01world) bByzMenu() []c01bact {
 }
 
 func (w *c01world) bByzAct(duty core.Duty, a c01bact) string {
+	if w.kind == c01kAggregator {
+		return w.bByzActAggregator(duty, a)
+	}
 	byz, v := w.sc.Byz, w.cl.vals[0]
 	all := []int{}
 	for x := 0; x < w.sc.N; x++ {
@@ -693,21 +739,28 @@ func c01bScenarios(kind, aggdb, wire string, maxDev int) []c01script {
 }
 
 // c01bScripts is the duty-type part of the enumeration (appended to the attester configurations).
-func c01bScripts(thorough bool) (products, out []c01script) {
+func c01bScripts(thorough bool) (products, out, last []c01script) {
 	dev, devSel := 0, 1
 	if thorough {
 		dev, devSel = 1, 2
 	}
-	// proposer, through consensus: every execution with <= 1 deviation at any step (thorough: <= 2 for the first two
-	// configurations, two more block forms with <= 1)
+	// proposer, through consensus: every execution with <= 1 deviation at any step (thorough: <= 2 for n=3 and, as the last
+	// configuration of the run, for n=4 with the Byzantine node; two more block forms with <= 1)
 	out = append(out,
 		c01script{Duty: c01kProposer, Ver: "electra-blinded", N: 3, Inputs: "distinct", Byz: -1, MaxDev: devSel},
-		c01script{Duty: c01kProposer, Ver: "deneb", N: 4, Inputs: "equal", Byz: 0, MaxDev: devSel},
+		c01script{Duty: c01kProposer, Ver: "deneb", N: 4, Inputs: "equal", Byz: 0, MaxDev: 1},
 		c01script{Duty: c01kProposer, Ver: "deneb", N: 4, Inputs: "distinct", Byz: -1, MaxDev: 1},
 		c01script{Duty: c01kProposer, Ver: "electra-blinded", N: 4, Inputs: "leader-differs", Byz: 1, MaxDev: 1},
 		c01script{Duty: c01kProposer, Ver: "deneb", N: 4, Inputs: "distinct", Byz: 2, MaxDev: 1, AggDB: "v1", Wire: "retry"})
+	// aggregator, through consensus on the aggregate attestation (the nodes' beacon nodes return aggregates of different participants)
+	out = append(out,
+		c01script{Duty: c01kAggregator, Ver: "deneb", N: 4, Inputs: "distinct", Byz: 1, MaxDev: 1},
+		c01script{Duty: c01kAggregator, Ver: "electra", N: 4, Inputs: "leader-differs", Byz: 0, MaxDev: 1, AggDB: "v1", Wire: "retry"})
 	if thorough {
+		last = append(last, c01script{Duty: c01kProposer, Ver: "deneb", N: 4, Inputs: "equal", Byz: 0, MaxDev: 2})
 		out = append(out,
+			c01script{Duty: c01kProposer, Ver: "deneb", N: 3, Inputs: "leader-differs", Byz: -1, MaxDev: 2},
+			c01script{Duty: c01kAggregator, Ver: "electra", N: 3, Inputs: "distinct", Byz: -1, MaxDev: 2},
 			c01script{Duty: c01kProposer, Ver: "fulu", N: 4, Inputs: "leader-differs", Byz: 3, MaxDev: 1},
 			c01script{Duty: c01kProposer, Ver: "capella-blinded", N: 4, Inputs: "distinct", Byz: 1, MaxDev: 1, AggDB: "v1", Wire: "retry"})
 	}
@@ -734,5 +787,140 @@ func c01bScripts(thorough bool) (products, out []c01script) {
 	sel(c01kExit, 4, 3, []int{0, 0, 0, 0}, []int{0, 1, 0}, "first", 0, "", "")
 	sel(c01kExit, 4, 3, []int{0, 0, 0, 0}, []int{1, 1, 0}, "last", 1, "v1", "retry")
 	sel(c01kRandao, 4, 3, []int{0, 0, 0, 0}, []int{1, 0, 0}, "last", 0, "", "")
-	return products, out
+	return products, out, last
+}
+
+// ---- aggregator duty (through consensus on the aggregate attestation) ---------------------------------------------------------
+
+// bAggData is the attestation data all candidate aggregates are about (the validator client asks dutydb for the aggregate by
+// the root of this data); from electra on the committee index is carried by the committee bits.
+func (w *c01world) bAggData() eth2p0.AttestationData {
+	d := c01attData(0x10)
+	d.Index = w.cl.vals[0].commIdx
+	if w.sc.Ver == "electra" {
+		d.Index = 0
+	}
+	return d
+}
+
+// bAggregate is the candidate aggregate `variant` a node's beacon node returns: the same attestation data, other
+// participants (aggregation bits) and hence another aggregate signature.
+func (w *c01world) bAggregate(variant byte) *eth2spec.VersionedAttestation {
+	v := w.cl.vals[0]
+	data := w.bAggData()
+	bits := bitfield.NewBitlist(8)
+	bits.SetBitAt(v.vci, true)
+	bits.SetBitAt(uint64(variant)%8, true)
+	bits.SetBitAt(uint64(variant>>4)%8, true)
+	sig := eth2p0.BLSSignature{0xa9, variant}
+	if w.sc.Ver == "electra" {
+		cb := bitfield.NewBitvector64()
+		cb.SetBitAt(uint64(v.commIdx), true)
+		return &eth2spec.VersionedAttestation{Version: eth2spec.DataVersionElectra, Electra: &electra.Attestation{AggregationBits: bits, Data: &data, Signature: sig, CommitteeBits: cb}}
+	}
+	return &eth2spec.VersionedAttestation{Version: eth2spec.DataVersionDeneb, Deneb: &eth2p0.Attestation{AggregationBits: bits, Data: &data, Signature: sig}}
+}
+
+// bSignAggregate: the validator client wraps the aggregate it is served into an aggregate-and-proof (its validator index, the
+// selection proof) and signs its hash tree root under the aggregate-and-proof domain of the slot's epoch.
+func (w *c01world) bSignAggregate(v c01val, share int, att *eth2spec.VersionedAttestation, signOver *eth2spec.VersionedAttestation) (core.ParSignedData, error) {
+	if signOver == nil {
+		signOver = att
+	}
+	proof := eth2p0.BLSSignature{0x5e, 0x1e, 0xc7}
+	build := func(a *eth2spec.VersionedAttestation, sig eth2p0.BLSSignature) (*eth2spec.VersionedSignedAggregateAndProof, [32]byte, error) {
+		if a.Version == eth2spec.DataVersionElectra {
+			msg := &electra.AggregateAndProof{AggregatorIndex: v.valIdx, Aggregate: a.Electra, SelectionProof: proof}
+			root, err := msg.HashTreeRoot()
+			return &eth2spec.VersionedSignedAggregateAndProof{Version: a.Version, Electra: &electra.SignedAggregateAndProof{Message: msg, Signature: sig}}, root, err
+		}
+		msg := &eth2p0.AggregateAndProof{AggregatorIndex: v.valIdx, Aggregate: a.Deneb, SelectionProof: proof}
+		root, err := msg.HashTreeRoot()
+		return &eth2spec.VersionedSignedAggregateAndProof{Version: a.Version, Deneb: &eth2p0.SignedAggregateAndProof{Message: msg, Signature: sig}}, root, err
+	}
+	_, root, err := build(signOver, eth2p0.BLSSignature{})
+	if err != nil {
+		return core.ParSignedData{}, err
+	}
+	sroot, err := signing.GetDataRoot(context.Background(), w.eth2, signing.DomainAggregateAndProof, w.epochOf(c01slot), root)
+	if err != nil {
+		return core.ParSignedData{}, err
+	}
+	s, err := c01sign(v.shares[share], sroot)
+	if err != nil {
+		return core.ParSignedData{}, err
+	}
+	obj, _, err := build(att, eth2p0.BLSSignature(s))
+	if err != nil {
+		return core.ParSignedData{}, err
+	}
+	return core.NewPartialVersionedSignedAggregateAndProof(obj, share), nil
+}
+
+func (w *c01world) bByzActAggregator(duty core.Duty, a c01bact) string {
+	byz, v := w.sc.Byz, w.cl.vals[0]
+	all := []int{}
+	for x := 0; x < w.sc.N; x++ {
+		all = append(all, x)
+	}
+	next, third := w.nodes[(byz+1)%w.sc.N].aggCand, w.bAggregate(0x66)
+	send := func(par core.ParSignedData, err error, to ...int) {
+		if err == nil {
+			w.bInject(duty, core.ParSignedDataSet{v.corePK: par}, to...)
+		}
+	}
+	switch a.kind {
+	case "b-own": // its own share over ITS OWN candidate aggregate instead of the decided one, to all peers / to one
+		par, err := w.bSignAggregate(v, byz+1, w.nodes[byz].aggCand, nil)
+		if a.arg == 0 {
+			send(par, err, all...)
+		} else {
+			send(par, err, (byz+1)%w.sc.N)
+		}
+	case "b-other": // ... over an aggregate nobody proposes
+		par, err := w.bSignAggregate(v, byz+1, third, nil)
+		send(par, err, all...)
+	case "b-badsig": // what another node proposes, carrying a signature over another aggregate
+		par, err := w.bSignAggregate(v, byz+1, next, third)
+		send(par, err, all...)
+	case "b-relabel": // a genuine partial signature, then the very same signature under every other share index
+		p := next
+		if a.arg == 0 {
+			p = third
+		}
+		if par, err := w.bSignAggregate(v, byz+1, p, nil); err == nil {
+			send(par, nil, all...)
+			for x := 1; x <= w.sc.N; x++ {
+				if x != byz+1 {
+					send(core.ParSignedData{SignedData: par.SignedData, ShareIdx: x}, nil, all...)
+				}
+			}
+		}
+	}
+	return fmt.Sprintf("BYZ aggregator %s(%d)", a.kind, a.arg)
+}
+
+func (b c01bn) SubmitAggregateAttestations(_ context.Context, o *eth2api.SubmitAggregateAttestationsOpts) error {
+	b.w.bnCall("SubmitAggregateAttestations")
+	for _, ap := range o.SignedAggregateAndProofs {
+		var root [32]byte
+		var err error
+		switch {
+		case ap.Electra != nil && ap.Electra.Message != nil:
+			root, err = ap.Electra.Message.HashTreeRoot()
+		case ap.Deneb != nil && ap.Deneb.Message != nil:
+			root, err = ap.Deneb.Message.HashTreeRoot()
+		default:
+			err = fmt.Errorf("no message")
+		}
+		slot, err2 := ap.Slot()
+		idx, err3 := ap.AggregatorIndex()
+		sig, err4 := ap.Signature()
+		if err != nil || err2 != nil || err3 != nil || err4 != nil {
+			b.w.emits = append(b.w.emits, c01emit{node: b.node, where: "beacon-node", dutyStr: b.w.bDuty().String(), pubkey: "unattributable"})
+			continue
+		}
+		b.w.recordBNObj(b.node, func(v c01val) bool { return v.valIdx == idx }, signing.DomainAggregateAndProof, b.w.epochOf(slot), root, sig)
+	}
+	return nil
 }
